@@ -403,6 +403,7 @@ func serverPhase(R *res.Result, rounds int) {
 			break
 		}
 		s := x.S
+		s.SetClusterVersion("5.0.0") // the batch split handler answers only from 2.1 on
 		bound := func() uint64 {
 			ctx, cancel := context.WithTimeout(context.Background(), 5*time.Second)
 			defer cancel()
@@ -457,6 +458,35 @@ func serverPhase(R *res.Result, rounds int) {
 			}(g)
 		}
 		wg.Wait()
+		// one split request that needs more ids than a whole window holds (400 new regions with 3 peers each)
+		func() {
+			ctx, cancel := context.WithTimeout(context.Background(), 30*time.Second)
+			defer cancel()
+			region := &metapb.Region{Id: 2, Peers: []*metapb.Peer{{Id: 3, StoreId: 1}, {Id: 4, StoreId: 2}, {Id: 5, StoreId: 3}}}
+			resp, err := s.AskBatchSplit(ctx, &pdpb.AskBatchSplitRequest{Header: x.Header(), Region: region, SplitCount: 400})
+			if err != nil || resp.GetHeader().GetError() != nil {
+				return
+			}
+			mu.Lock()
+			R.Count("server:big-batch-split")
+			mu.Unlock()
+			for _, ids := range resp.GetIds() {
+				note(ids.GetNewRegionId(), fmt.Sprintf("AskBatchSplit(400) term %d", term), 0)
+				for _, p := range ids.GetNewPeerIds() {
+					note(p, fmt.Sprintf("AskBatchSplit(400) peer term %d", term), 0)
+				}
+			}
+			if b := bound(); b != 0 {
+				for _, ids := range resp.GetIds() {
+					for _, v := range append([]uint64{ids.GetNewRegionId()}, ids.GetNewPeerIds()...) {
+						if v > b {
+							R.Violate("C04:id-above-stored-bound:real-server", fmt.Sprintf("a split request for 400 regions was answered with id %d while the stored bound is %d", v, b), map[string]interface{}{"id": v, "bound": b})
+							return
+						}
+					}
+				}
+			}
+		}()
 		// a split request whose region id is the last id of the window while the extension needed for its peer ids is
 		// refused (the leader record does not carry this member's value at that moment): the request may fail, but a
 		// successful answer must carry fresh ids only
